@@ -309,6 +309,10 @@ func (pc *ProviderCache) Refresh(ctx context.Context) error {
 	for _, fetchedInfos := range fetched {
 		// Collect latest info on each provider.
 		for _, fetchedInfo := range fetchedInfos {
+			if fetchedInfo == nil {
+				// A source may deliver a list with an empty entry.
+				continue
+			}
 			pid := fetchedInfo.AddrInfo.ID
 			cinfo, ok := pc.write[pid]
 			if !ok {
